@@ -2,6 +2,7 @@ package main
 
 import (
 	"fmt"
+	"math"
 	"math/big"
 	"sort"
 	"strings"
@@ -19,6 +20,9 @@ var c12Blocks = []absDay{
 	{Date: "2021/01/24", Entries: []absIng{{"k/r1", 1}, {"u", 1}, {"k/r1", 0.5}}, Notes: []absNote{{"mood", "ok"}}},
 	{Date: "2021/01/27", Entries: []absIng{{"fish & chips <x> 'y'", 1}, {"k", 2}}, Notes: []absNote{{"", "50% done"}}},
 	c12BigBlock(),
+	// negative zeros: a negative quantity of a food with a zero coefficient, a zero quantity of a food with negative ones
+	// (the first number this day prints is a negative zero: a literal -0 quantity)
+	{Date: "2021/01/29", Entries: []absIng{{"u", math.Copysign(0, -1)}, {"k/r1", 0}, {"r0", -1}}},
 }
 
 // c12BigBlock: a day of 70 entries (wide, with repeats) whose report alone exceeds the output buffer
